@@ -76,7 +76,10 @@ def run(ctx):
                                          trailing=rnd.choice([0, 0, 1, 3])))
     # scale: a project of more than 256 modules (link targets and slot numbers above 255)
     hist.append(links.random_history(ctx, rnd, "h-large", 262, 40 if q else 120, classes, p_save=0.1, variants=("canonical", "never", "always")))
-    hist.append(links.long_history(ctx, rnd, "h-long", 1100 if q else 3000))        # scale in time: a thousand freed slots, then save + load
+    hist.append(links.long_history(ctx, rnd, "h-long", 1100 if q else 3000))
+    import rv.api as api_
+    for k, hc in enumerate([api_.m.MultiCtl, api_.m.Amplifier, api_.m.MetaModule, api_.m.Sampler]):     # one source with 20 destinations
+        hist.append(links.hub_history(ctx, rnd, "h-hub%d" % k, hc, fan=20 if k else 22))        # scale in time: a thousand freed slots, then save + load
     for tr in hist:
         for i, e in enumerate(tr["events"]):
             if e["op"] == "saveload":
